@@ -584,6 +584,11 @@ package jsonpath
 
 // what every child loop keeps true about the result buffer and the error bookkeeping
 //@ spec bufInv(container *bufferContainer) bool = ownsBuf(container) && (arr(container.result) == old(arr(container.result)) || fresh(container.result)) && len(container.result) >= old(len(container.result)) && (forall i {elemAt(container.result, i)} :: 0 <= i && i < old(len(container.result)) ==> elemAt(container.result, i) == old(elemAt(container.result, i))) && (forall i {elemAt(container.result, i)} :: old(len(container.result)) <= i && i < len(container.result) ==> extVal(elemAt(container.result, i)))
+// C15, deepest over ALL failing branches: after every iteration of a multi-branch loop that leaves the buffer empty, the kept
+// error is at least as deep as the error of the branch just tried and, at equal depth, is a type mismatch only if that
+// branch's error is one too (covers); and the kept error never becomes shallower or worse (keeps).  By induction over the
+// iterations the error returned when nothing was selected is one of the deepest, a missing member being preferred there.
+//@ spec betterEq(len1 int, e1 errorRuntime, len2 int, e2 errorRuntime) bool = e1 != nil && len1 <= len2 && (len1 == len2 && isType(e1, ErrorTypeUnmatched) ==> isType(e2, ErrorTypeUnmatched))
 //@ spec errInv(deepestTextLen int, deepestError errorRuntime) bool = (deepestTextLen != 0 ==> deepestError != nil) && (deepestError != nil ==> errOK(deepestError) && deepestTextLen == errLen(deepestError))
 //@ spec extStack(s []interface{}) bool = forall k {elemAt(s, k)} :: off(s) <= k && k < off(s) + len(s) ==> extVal(elemAt(s, k))
 
@@ -603,7 +608,9 @@ package jsonpath
 //@   ensures mismatch: !isType(current, map[string]interface{}) && !isType(current, []interface{}) ==> mismatch(ret, i.errorRuntime, "object/array", current) && len(container.result) == old(len(container.result))
 
 //@ func (*syntaxChildWildcardIdentifier).retrieveMap
-//@   props C01 C08 C03 C04 C05 C06 C07 C20 C12 C13
+//@   props C01 C08 C03 C04 C05 C06 C07 C20 C12 C13 C15
+//@   loop 1 step covers: err != nil && len(container.result) == 0 ==> betterEq(deepestTextLen, deepestError, errLen(err), err)
+//@   loop 1 step keeps: prev_deepestError != nil && len(container.result) == 0 ==> betterEq(deepestTextLen, deepestError, prev_deepestTextLen, prev_deepestError)
 //@   requires i != nil && WFbasic(i.syntaxBasicNode) && errRT(i.syntaxBasicNode)
 //@   include retrieveFrame
 //@   decreases 3*hgt(i.syntaxBasicNode) + 1
@@ -618,7 +625,9 @@ package jsonpath
 
 //@ spec sumLof(b *syntaxBasicNode, r any, s []interface{}, j int) int = sumL(b, r, A_Val[arr(s)], off(s), j)
 //@ func (*syntaxChildWildcardIdentifier).retrieveList
-//@   props C01 C08 C03 C04 C05 C06 C07 C20 C12 C13
+//@   props C01 C08 C03 C04 C05 C06 C07 C20 C12 C13 C15
+//@   loop 1 step covers: err != nil && len(container.result) == 0 ==> betterEq(deepestTextLen, deepestError, errLen(err), err)
+//@   loop 1 step keeps: prev_deepestError != nil && len(container.result) == 0 ==> betterEq(deepestTextLen, deepestError, prev_deepestTextLen, prev_deepestError)
 //@   requires i != nil && WFbasic(i.syntaxBasicNode) && errRT(i.syntaxBasicNode) && docArr(srcList) && wf(srcList)
 //@   include retrieveFrame
 //@   decreases 3*hgt(i.syntaxBasicNode) + 1
@@ -638,7 +647,9 @@ package jsonpath
 
 //@ spec identAt(i *syntaxChildMultiIdentifier, t int) any = A_Val[arr(i.identifiers)][idxOf(off(i.identifiers), t)]
 //@ func (*syntaxChildMultiIdentifier).retrieveMap
-//@   props C01 C08 C03 C04 C05 C06 C07 C20 C12 C13
+//@   props C01 C08 C03 C04 C05 C06 C07 C20 C12 C13 C15
+//@   loop 1 step covers: err != nil && len(container.result) == 0 ==> betterEq(deepestTextLen, deepestError, errLen(err), err)
+//@   loop 1 step keeps: prev_deepestError != nil && len(container.result) == 0 ==> betterEq(deepestTextLen, deepestError, prev_deepestTextLen, prev_deepestError)
 //@   requires WFmultiDef(i)
 //@   include retrieveFrame
 //@   decreases 3*height(i) + 1
@@ -652,6 +663,8 @@ package jsonpath
 
 //@ func (*syntaxUnionQualifier).retrieve
 //@   props C01 C08 C03 C04 C05 C06 C07 C11 C20 C15 C12 C13
+//@   loop 2 step covers: err != nil && len(container.result) == 0 ==> betterEq(deepestTextLen, deepestError, errLen(err), err)
+//@   loop 2 step keeps: prev_deepestError != nil && len(container.result) == 0 ==> betterEq(deepestTextLen, deepestError, prev_deepestTextLen, prev_deepestError)
 //@   implements syntaxNode.retrieve
 //@   unfold WFnode(this) ==> WFunionDef(u)
 //@   ensures mismatch: !isType(current, []interface{}) ==> mismatch(ret, u.errorRuntime, "array", current) && len(container.result) == old(len(container.result))
@@ -674,6 +687,8 @@ package jsonpath
 
 //@ func (*syntaxRecursiveChildIdentifier).retrieve
 //@   props C01 C08 C03 C04 C05 C06 C07 C20 C15 C12 C13
+//@   loop 1 step covers: err != nil && len(container.result) == 0 ==> betterEq(deepestTextLen, deepestError, errLen(err), err)
+//@   loop 1 step keeps: prev_deepestError != nil && len(container.result) == 0 ==> betterEq(deepestTextLen, deepestError, prev_deepestTextLen, prev_deepestError)
 //@   implements syntaxNode.retrieve
 //@   unfold WFnode(this) ==> WFrecursiveDef(i)
 //@   ensures mismatch: !isType(current, map[string]interface{}) && !isType(current, []interface{}) ==> mismatch(ret, i.errorRuntime, "object/array", current) && len(container.result) == old(len(container.result))
@@ -1029,7 +1044,9 @@ package jsonpath
 
 //@ spec keysEnum(keys []string, m map[string]interface{}) bool = len(keys) == len(m) && (forall t {keys[t]} {skey(M_dom[m], t)} :: 0 <= t && t < len(keys) ==> keys[t] == skey(M_dom[m], t) && has(m, keys[t]))
 //@ func (*syntaxFilterQualifier).retrieveMap
-//@   props C01 C08 C03 C04 C05 C06 C07 C20 C12 C13
+//@   props C01 C08 C03 C04 C05 C06 C07 C20 C12 C13 C15
+//@   loop 2 step covers: err != nil && len(container.result) == 0 ==> betterEq(deepestTextLen, deepestError, errLen(err), err)
+//@   loop 2 step keeps: prev_deepestError != nil && len(container.result) == 0 ==> betterEq(deepestTextLen, deepestError, prev_deepestTextLen, prev_deepestError)
 //@   requires WFfilterDef(f)
 //@   include retrieveFrame
 //@   decreases 3*height(f) + 1
@@ -1052,7 +1069,9 @@ package jsonpath
 //@   loop 2 invariant mono: Kok(f.syntaxBasicNode) ==> (forall t {sumFMof(f.query, f.syntaxBasicNode, root, srcMap, t)} :: 0 <= t && t <= rangeindex2 ==> 0 <= sumFMof(f.query, f.syntaxBasicNode, root, srcMap, t) && sumFMof(f.query, f.syntaxBasicNode, root, srcMap, t) + (RHmap(f.query, root, srcMap, t) ? Kn(f.syntaxBasicNode, root, memAt(srcMap, t)) : 0) <= len(container.result) - old(len(container.result)))
 
 //@ func (*syntaxFilterQualifier).retrieveList
-//@   props C01 C08 C03 C04 C05 C06 C07 C20 C12 C13
+//@   props C01 C08 C03 C04 C05 C06 C07 C20 C12 C13 C15
+//@   loop 1 step covers: err != nil && len(container.result) == 0 ==> betterEq(deepestTextLen, deepestError, errLen(err), err)
+//@   loop 1 step keeps: prev_deepestError != nil && len(container.result) == 0 ==> betterEq(deepestTextLen, deepestError, prev_deepestTextLen, prev_deepestError)
 //@   requires WFfilterDef(f) && docArr(srcList) && wf(srcList)
 //@   include retrieveFrame
 //@   decreases 3*height(f) + 1
